@@ -40,7 +40,7 @@ META = {
             "offset beyond the first 256; thorough adds double faults: two body bytes <= 4 apart) through from_private_key_file "
             "(and from_private_key on every 8th case).  Allowed outcomes: SSHException (any subclass), or a key "
             "that signs, verifies under its own public encoding and equals the public section of the very file "
-            "it was loaded from.",
+            "it was loaded from; an unencrypted OpenSSH-format file whose two check integers differ must not load.",
     "note": "bcrypt.kdf is memoised and refused above 64 rounds from the harness side (a flipped rounds field "
             "would otherwise run for hours; bcrypt itself is trusted); PKey.from_path is exercised in thorough "
             "with the exception-type clause switched off (it documents cryptography's exceptions)",
@@ -360,9 +360,8 @@ def do_load(cname, api, content, pw):
         return "other", e
 
 
-def pub_matches_file(key, content):
+def pub_matches_file(key, content, o):
     """True / False / None (file has no strictly readable public section)."""
-    o = osshkey.outer(content)
     if o is None:
         return None
     want = osshkey.pub_fields(o["pub"])
@@ -421,7 +420,15 @@ def judge(acc, fid, cname, api, label, content, pw, pwlab):
         acc.violation("loaded-key-halves-disagree|%s|own-signature-does-not-verify" % type(key).__name__,
                       {"file": fid, "edit": label}, mkrep())
         return "key-bad"
-    m = pub_matches_file(key, content)
+    o = osshkey.outer(content)
+    if o is not None and o["cipher"] == b"none" and o["kdf"] == b"none" and len(o["priv"]) >= 8 \
+            and o["priv"][:4] != o["priv"][4:8]:
+        # PROTOCOL.key: the two check integers of the private section must be equal; a file in which they
+        # differ is detectably corrupt and must not load
+        acc.violation("corrupt-file-loads|%s|openssh-checkints-differ" % type(key).__name__,
+                      {"file": fid, "edit": label, "loader": "%s.%s" % (cname, api)}, mkrep())
+        return "key-despite-checkints"
+    m = pub_matches_file(key, content, o)
     if m is False:
         acc.violation("loaded-key-halves-disagree|%s|differs-from-public-section-of-the-file" % type(key).__name__,
                       {"file": fid, "edit": label, "loader": "%s.%s" % (cname, api)}, mkrep())
